@@ -2128,6 +2128,105 @@ E2E_USERS = ['alice', 'mallory', '%u', 'k-alice', 'evil',
              '\u2025/evil', '..\u2215evil', '/', 'alice/..', 'C:evil']
 
 
+def run_server_connect(case) -> CaseResult:
+    """The server config as a live connection sees it: asyncssh re-evaluates
+    the files when the user name arrives, feeding Match with the address and
+    port the connection was accepted on, the client's address and the user.
+    What that connection ends up with must be what SSHServerConfig.load()
+    gives for the same five values (validated against the evaluator by the
+    server-model family)"""
+
+    from ..engines import memwire  # pylint: disable=import-outside-toplevel
+
+    labels = set()
+
+    try:
+        user = saslprep(case['user'])
+    except SASLPrepError:
+        return CaseResult(['saslprep-refuses'], False)
+
+    root = tempfile.mkdtemp(prefix='c18s.')
+    pair = None
+
+    try:
+        write_files(root, case['files'], '')
+        c = case['conn']
+        paths = [file_path(root, k) for k in case['top']]
+
+        with _Env(root, {}):
+            # (no reverse lookup on the connection: the client host is '')
+            ref = load_server(dict(case, conn=dict(c, host='')), root, user)
+
+            lost: List[Any] = []
+
+            class Srv(asyncssh.SSHServer):
+                def connection_lost(self, exc):
+                    lost.append(exc)
+
+            try:
+                pair = memwire.Pair(
+                    {'server_factory': Srv, 'config': paths},
+                    {'username': case['user'], 'password': 'pw'})
+            except (ConfigParseError, ValueError, OSError) as exc:
+                return CaseResult(['server-options-refused:' +
+                                   type(exc).__name__], False)
+
+            pair.h.wire.addr['s'] = (c['laddr'], c['lport'])
+            pair.h.wire.addr['c'] = (c['addr'], 40000)
+            pair.start()
+            pair.h.pump_until(pair.copts.waiter.done)
+            pair.h.pump()
+            sconn = pair.s
+
+            if ref[0] != 'ok':
+                return CaseResult(['config-error:' + ref[0]], False)
+
+            # pylint: disable=protected-access
+            if lost and isinstance(lost[0], socket.gaierror):
+                # UseDNS: the reverse lookup needs a resolver
+                return CaseResult(['needs-name-resolution'], False)
+
+            if lost and lost[0] is not None and \
+                    not isinstance(lost[0], asyncssh.Error):
+                # e.g. the files named by AuthorizedKeysFile do not exist
+                # for this user: sshd treats that as "no keys"
+                raise Violation(
+                    'resolution', 'the server dropped the connection with '
+                    '%r while applying the configuration for user %r' %
+                    (lost[0], user), 'server-connect:dropped:' +
+                    type(lost[0]).__name__)
+
+            if getattr(sconn, '_username', None) != user:
+                return CaseResult(['auth-not-reached'], False)
+
+            cfg = sconn._options.config
+            live = ('ok', {name: cfg.get(name) for name in SERVER_KINDS
+                           if cfg.get(name, KeyError) is not KeyError})
+
+        if c['addr'] != c['laddr']:
+            labels.add('client-addr!=accept-addr')
+
+        if norm(live, SERVER_KINDS) != norm(ref, SERVER_KINDS):
+            diff = first_diff(norm(ref, SERVER_KINDS),
+                              norm(live, SERVER_KINDS))
+            raise Violation(
+                'resolution', 'option %s: the connection accepted on %s:%d '
+                'from %s for user %r has %r, loading the same files for '
+                'those values gives %r' %
+                (diff, c['laddr'], c['lport'], c['addr'], user,
+                 live[1].get(diff), ref[1].get(diff)),
+                'server-connect:' + str(SERVER_KINDS.get(diff, diff)))
+
+        labels.add('compared')
+        return CaseResult(sorted(labels), 'client-addr!=accept-addr' in
+                          labels)
+    finally:
+        if pair is not None:
+            pair.close()
+
+        shutil.rmtree(root, ignore_errors=True)
+
+
 def run_server_e2e(case) -> CaseResult:
     """A server whose config names <root>/keys/{f,d}/ as the place where
     authorized keys live; copies of a key the attacker owns are listed in
@@ -2280,6 +2379,10 @@ FAMILIES = [
                              'template-uses-%u', 'metachar-name',
                              'match-negated', 'include-file']},
            shards={'quick': 6, 'thorough': 16}),
+    Family('server-connect', run_server_connect, strategy=server_case,
+           budget={'quick': 400, 'thorough': 6000},
+           required={'all': ['compared', 'client-addr!=accept-addr']},
+           shards={'quick': 4, 'thorough': 16}, case_timeout=120),
     Family('server-e2e', run_server_e2e, strategy=e2e_case,
            budget={'quick': 160, 'thorough': 1500},
            required={'all': ['attacker', 'legit-login', 'unsafe-name']},
